@@ -251,6 +251,10 @@ TAILS = ["--- | ---", "|---|---|", ": def", "===", "---", "- next", "> more", " 
 
 
 def interaction_doc(r, n=None):
+    """interrupt / lazy-continuation fragments; one in five is an edge document (edge_doc: wide white space at the borders of
+    block text, degenerate definition keys)"""
+    if n is None and r.random() < 0.2:
+        return edge_doc(r)
     out = []
     for _ in range(n or r.randint(1, 3)):
         out.append(r.choice(HEADS))
@@ -261,11 +265,38 @@ def interaction_doc(r, n=None):
     return "\n".join(out) + "\n"
 
 
-def showcase(r):
+SHOWCASE_PLUGINS = {"footnotes": ["footnotes"], "abbr": ["abbr"], "table": ["table"], "def_list": ["def_list"], "task_lists": ["task_lists"], "math": ["math"],
+                    "spoiler": ["spoiler"], "ruby": ["ruby"], "formatting": ["strikethrough", "mark", "insert", "superscript", "subscript"], "url": ["url"], "refs": []}
+
+
+def showcase_for(r):
+    """(plugins, document): a showcase document together with the plugins whose constructs it uses"""
+    k = r.choice(sorted(SHOWCASE_PLUGINS))
+    return list(SHOWCASE_PLUGINS[k]), showcase(r, k)
+
+
+def abbr_showcase(r):
+    """abbreviations with one-word and multi-word keys, keys that are prefixes of each other or hold stop characters; uses plain,
+    next to punctuation, and wrapped over two lines at a space of the key"""
+    keys = r.sample(["HTML", "W3C", "World Wide Web", "AB", "AB_C", "a b", "Mr. X", "C*", "x y z", "ML"], r.randint(1, 4))
+    uses = []
+    for _ in range(r.randint(1, 5)):
+        u = r.choice(keys)
+        if " " in u and r.random() < 0.6:
+            u = u.replace(" ", r.choice(["\n", "  \n", " \n", "\\\n"]), 1)
+        uses.append(r.choice(["", "(", "*", "x"]) + u + r.choice(["", ".", "s", "*", " "]))
+    body = " ".join(words(r, 0, 2) + " " + u for u in uses)
+    defs = "".join("*[%s]: %s\n" % (k, r.choice(["T", "Hyper <Text> \"q\"", "a & b", ""])) for k in keys)
+    return (body + "\n\n" + defs) if r.random() < 0.7 else (defs + "\n" + body + "\n")
+
+
+def showcase(r, k=None):
     """a small document in which one plugin's constructs are actually used together (definition + reference etc.)"""
     w = lambda: words(r, 1, 3)  # noqa
     end = lambda: r.choice(["", " *em*", " `code`", " http", " src/", " [l](/u)", " <b>", " **s**", " p", " x>"])  # noqa
-    k = r.choice(["footnotes", "footnotes", "abbr", "table", "def_list", "task_lists", "math", "spoiler", "ruby", "formatting", "url", "refs"])
+    k = k or r.choice(["footnotes", "footnotes", "abbr", "table", "def_list", "task_lists", "math", "spoiler", "ruby", "formatting", "url", "refs"])
+    if k == "abbr" and r.random() < 0.7:
+        return abbr_showcase(r)
     if k == "footnotes":
         keys = r.sample(["1", "n", "Note", "k2"], r.randint(1, 3))
         body = " ".join("%s[^%s]" % (w(), r.choice(keys + ["zz"])) for _ in range(r.randint(1, 4)))
@@ -295,6 +326,7 @@ def showcase(r):
 
 
 INCLUDE_TARGETS = ["data.txt", "part.md", "frag.html", "latin1.txt", "empty.txt", "bom.md", "utf16.txt", "sub/inner.md", "missing.txt", "main.md", "", ".", "sub",
+                   "deep.md", "deep.md", "crlf.md", "cr.md", "cyc_a.md", "cyc_b.md",
                    "./data.txt", "sub/../data.txt", "data.txt  ", "<x9>.txt"]
 INCLUDE_ENCODINGS = ["utf-8", "utf-8", "latin-1", "ascii", "utf-16", "utf-8-sig", "nope", "", "<x9 y9=1>", "\"onx9=1", "idna", "hex", "unicode_escape"]
 
@@ -311,9 +343,54 @@ def include_doc(r, style=None, payload=""):
         if r.random() < 0.2:
             opts.append((r.choice(["class", "x", "encoding"]), payload or "v"))
         if style == "fenced":
-            out.append("```{include} %s\n%s```\n" % (tgt, "".join(":%s: %s\n" % o for o in opts)))
+            block = "```{include} %s\n%s```\n" % (tgt, "".join(":%s: %s\n" % o for o in opts))
         else:
-            out.append(".. include:: %s\n%s" % (tgt, "".join("   :%s: %s\n" % o for o in opts)))
+            block = ".. include:: %s\n%s" % (tgt, "".join("   :%s: %s\n" % o for o in opts))
+        if r.random() < 0.3:
+            # inside containers (quotes; a list item for the fenced style): what is included nests below them
+            pre = "> " * r.randint(1, 6)
+            block = "".join(pre + l + "\n" for l in block.split("\n")[:-1])
+        out.append(block)
         if r.random() < 0.4:
             out.append(words(r) + "\n")
+    return "\n".join(out)
+
+
+# white space that str.strip()/str.split()/\s know but the block parser does not treat as blank, and the zero-width characters
+EDGE_WS = ["\u00a0", "\u2003", "\u3000", "\u2028", "\u2029", "\x0b", "\x0c", "\x1c", "\x1f", "\x85", "\u1680", "\u200b", "\ufeff"]
+MARKERS = ["-", "*", "+", "1.", "7)", ">", "- [ ]", "- [x]", "term\n:", "[^n]:", "#", "##"]
+DEGENERATE_DEFS = ["*[%s]: x", "[%s]: /u", "[^%s]: note", "*[%s]:", "[%s]: <> 't'"]
+DEGENERATE_KEYS = [" ", "\t", "\u3000", "", "  ", "\u00a0", "a.c", "a|b", "(", "a*", "\\", "[", "^", " HTML ", "x y", "\x0b", "World Wide Web", "AB_C", "AB", "a b c", "x  y", "HT\nML"]
+
+
+def edge_doc(r, plugins=()):
+    """blocks whose text begins or ends with white space of the wider kind (after a marker, on the line after a marker, at the
+    end of a line, as a whole line) and definitions (reference, footnote, abbreviation) whose key is degenerate: white space only,
+    empty, or made of regex metacharacters -- followed by text that uses them"""
+    out = []
+    for _ in range(r.randint(1, 4)):
+        w, m, t = r.choice(EDGE_WS), r.choice(MARKERS), words(r, 1, 3)
+        k = r.randrange(8)
+        if k == 0:
+            out.append("%s\n%s%s%s\n" % (m, " " * (len(m.split("\n")[-1]) + 1), w, t))          # text starts on the line after the marker
+        elif k == 1:
+            out.append("%s %s%s\n" % (m, w, t))
+        elif k == 2:
+            out.append("%s %s%s\n%s\n" % (m, t, w, r.choice(["", t, w])))
+        elif k == 3:
+            out.append("%s\n%s\n%s\n" % (t, w * r.randint(1, 3), words(r)))                       # a line of wide white space only
+        elif k == 4:
+            out.append("%s %s\n%s\n\n%s%s\n" % (m, t, w, " " * r.choice([0, 2, 4]), words(r)))
+        elif k == 5:
+            key = r.choice(DEGENERATE_KEYS)
+            d = r.choice(DEGENERATE_DEFS) % key
+            use = key.strip() or "HTML"
+            if " " in use and r.random() < 0.7:
+                use = use.replace(" ", r.choice(["\n", "  \n", " \n ", "\\\n"]), 1)      # the use is wrapped at one of its spaces
+            out.append("%s\n\n%s [%s] [^%s] %s %s\n" % (d, t, key, key, use, t))
+        elif k == 6:
+            key = r.choice(DEGENERATE_KEYS)
+            out.append("%s %s [x][%s] [%s][] ![%s]\n\n%s\n" % (t, key, key, key, key, r.choice(DEGENERATE_DEFS) % key))
+        else:
+            out.append("%s%s%s\n" % (w, r.choice(["# h", "- a", "> q", "    code", "```\nc\n```", "| a |\n|---|", "<div>", "[r]: /u"]), w))
     return "\n".join(out)
